@@ -396,6 +396,31 @@ def concrete_roundtrips(repo, seed, n):
                 want_ = [nm_, cid_, int(arr_[0, 2])] + [float(x) for x in arr_[1:].reshape(-1)]
                 if got_[:3] != want_[:3] or not np.allclose(got_[3:], want_[3:], rtol=1e-7, atol=1e-12):
                     return ev, dict(pair="wtcoordcards", what="card of system %d: fields (name, CID, RID, A, B, C) differ from what the writer was given" % cid_, got=got_, want=want_)
+        # GRID cards whose 8-wide real fields are in the E-less short form that format_float8 / wtcard8 emit ('1.+10', '-4.+12', '5.-11', '1.7-4', '1.25+8'):
+        # rdgrids returns the numbers typed in the card (own short-form reader as oracle)
+        import re as _re
+        shortvals = [1e10, -4e12, 5e-11, 1.7e-4, 1.25e8, -3e-9, 2.5e15, -7e-20, 123456.0, -0.5, 9e9]
+        rows_ = []
+        lines_ = []
+        for g_ in range(3):
+            trip = [shortvals[(3 * g_ + j_ + it) % len(shortvals)] for j_ in range(3)]
+            flds = [nastran.format_float8(v_) for v_ in trip]
+            own = []
+            for f_ in flds:
+                t_ = f_.strip()
+                m_ = _re.match(r"^([+-]?(?:\d+\.?\d*|\.\d+))([+-]\d+)$", t_)
+                own.append(float(m_.group(1) + "e" + m_.group(2)) if m_ else float(t_))
+            rows_.append(own)
+            lines_.append("GRID    %8d%8s%s%s%s" % (70 + g_, "", flds[0], flds[1], flds[2]))
+        f = io.StringIO("\n".join(lines_) + "\n")
+        ev += 1
+        try:
+            gg = np.asarray(nastran.rdgrids(f), float)
+        except Exception as ex:          # noqa: BLE001
+            return ev, dict(pair="rdgrids", what="exception %r on GRID cards with short-form real fields" % (ex,), text=lines_)
+        if gg.shape[0] != 3 or not np.allclose(gg[:, 2:5], np.array(rows_), rtol=1e-12, atol=0):
+            return ev, dict(pair="rdgrids", what="GRID cards with E-less short-form reals (as written by format_float8) are not read as the numbers typed", text=lines_,
+                            got=gg[:, 2:5].tolist() if gg.ndim == 2 else None, want=rows_)
         # GRID option combinations: cp / cd scalar or vector, ps and seid blank or given (all four combinations), small and large field forms
         for cpv in (0, [int(x) for x in rng.randint(0, 50, ng)]):
             for cdv in (0, [int(x) for x in rng.randint(0, 50, ng)]):
